@@ -104,9 +104,9 @@ fn apply<const L: usize>(book: &mut OrderBook<L>, op: &Op) -> Outcome {
         }
         Op::Trading(b) => {
             if *b {
-                book.enable_trading()
+                let _ = book.enable_trading();
             } else {
-                book.disable_trading()
+                let _ = book.disable_trading();
             }
             Outcome::Unit
         }
